@@ -153,7 +153,9 @@ static int icmd_pos;		/* icmd[] position */
 void term_push(char *s, int n)
 {
 	n = MIN(n, sizeof(ibuf) - ibuf_cnt);
-	memcpy(ibuf + ibuf_cnt, s, n);
+	/* before what is still waiting: s may come from a key of the queue itself */
+	memmove(ibuf + ibuf_pos + n, ibuf + ibuf_pos, ibuf_cnt - ibuf_pos);
+	memcpy(ibuf + ibuf_pos, s, n);
 	ibuf_cnt += n;
 }
 
